@@ -178,6 +178,17 @@ func runC05(c *Ctx) {
 		_ = fns
 	}
 
+	// the checksum routines and the case validation Encode relies on (shared with C16 / C04)
+	if full := c16ResolveQuiet(c); full != nil {
+		reKey(c, "C16.", "C05.checksum-flow.", func() {
+			c16Polymod(c, full.polymod)
+			c16Expand(c, full.expand)
+		})
+	}
+	if dec := c.P.Func("pkg/bech32", "Decode"); dec != nil {
+		reKey(c, "C04.", "C05.", func() { c04Case(c, dec, ana.NewBuilder(c.P, dec)) })
+	}
+
 	// ---- charset.encode
 	if encodeFn != nil {
 		r.Fn(ana.ShortFunc(encodeFn))
@@ -200,6 +211,8 @@ func runC05(c *Ctx) {
 			r.Check(ok && whole, "C05.charset-encode.table-walk", c.ipos(e.Instr), "encode(src) = enc[src[0]] enc[src[1]] … for every element in order: %s", short(t.String(), 260))
 		}
 	}
+
+	pureScan(c, "C05.pure.no-package-state", fn, c.P.Func("pkg/bech32", "Decode"))
 
 	// ---- regroup bits
 	c05Regroup(c)
